@@ -14,6 +14,9 @@ Changed(a, b, p) == (p \in DOMAIN b) /\ (p \notin DOMAIN a \/ a[p] # b[p])
 LastWrite(fl, p) == fl[CHOOSE i \in 1..Len(fl) : fl[i].path = p /\ \A j \in (i + 1)..Len(fl) : fl[j].path # p].contents
 
 
+(* a manager keeps the checks of every plug-in it was used with: the check set in force is the union *)
+WellFormedAcc(s, gens) == GeneralWF(s) /\ ("dbc" \in gens => DbcWF(s)) /\ ("can_c" \in gens => CanCWF(s))
+
 (* directory before/after as functions path -> contents *)
 Untouched(a, b)  == a = b
 WroteExactly(a, b, fl) ==
